@@ -81,6 +81,47 @@ def tableRow (c : Codec) (file : Bytes) (ix : Idx) (k : Nat) : Except ReadErr (A
 def tableIterate (c : Codec) (file : Bytes) (ix : Idx) : Except ReadErr (List (Addr × Bytes)) :=
   (List.range ix.count).mapM (tableRow c file ix)
 
+/-! ## Batched reads: `getMany` / `getManyCompressed` -/
+
+/-- `ExtractChunkFromRead` → `NewCompressedChunk`: the record at `(off, len)` with its CRC verified,
+still compressed -/
+def readCompressed (c : Codec) (file : Bytes) (off len : Nat) : Except ReadErr Bytes :=
+  if file.length < off + len then .error .shortRead
+  else if len < checksumSize then .error .panic
+  else
+    let buff := (file.drop off).take len
+    let data := buff.take (len - checksumSize)
+    if beVal (buff.drop (len - checksumSize)) ≠ c.crc data then .error .checksum else .ok data
+
+/-- `readAtOffsets`: the same record, then `ToChunk` (snappy decode; no empty-data test on this path) -/
+def readDecoded (c : Codec) (file : Bytes) (off len : Nat) : Except ReadErr Bytes :=
+  match readCompressed c file off len with
+  | .error e => .error e
+  | .ok z => match c.dec z with
+    | none => .error .decode
+    | some d => .ok d
+
+/-- `tableReader.getMany`: `findOffsets`, then every located record read and decoded; delivers
+(requested address, bytes) -/
+def tableGetMany (c : Codec) (file : Bytes) (ix : Idx) (reqs : List GetRec) :
+    Except ReadErr (List GetRec × List (Addr × Bytes) × Bool) :=
+  match findOffsets ix reqs with
+  | none => .error .panic
+  | some (out, recs, rem) =>
+    match recs.mapM (fun r => (readDecoded c file r.off r.len).map (fun d => (r.a, d))) with
+    | .ok l => .ok (out, l, rem)
+    | .error e => .error e
+
+/-- `tableReader.getManyCompressed`: the same records, delivered still compressed -/
+def tableGetManyCompressed (c : Codec) (file : Bytes) (ix : Idx) (reqs : List GetRec) :
+    Except ReadErr (List GetRec × List (Addr × Bytes) × Bool) :=
+  match findOffsets ix reqs with
+  | none => .error .panic
+  | some (out, recs, rem) =>
+    match recs.mapM (fun r => (readCompressed c file r.off r.len).map (fun z => (r.a, z))) with
+    | .ok l => .ok (out, l, rem)
+    | .error e => .error e
+
 /-! ## Whole archive files over abstract compression -/
 
 /-- the CRC / decode half of `tableReader.get` on a buffer already in memory
